@@ -185,9 +185,21 @@ pub fn fdt_views(em: &Emitted) -> Vec<FdtView> {
 /// C02 decodability predicate, computed from the delivered list alone.
 /// `delivered` = stream indices in delivery order (duplicates allowed).
 pub fn decodable(em: &Emitted, fdts: &[FdtView], ov: &ObjView, delivered: &[usize]) -> bool {
+    decodable_ext(em, fdts, ov, delivered, false)
+}
+
+/// `late_fdt`: the FDT instance may become decodable anywhere before the delivered packet of the object that
+/// carries the close-object flag (anywhere at all when that packet is not delivered), instead of before the
+/// first delivered packet of the object.
+pub fn decodable_ext(em: &Emitted, fdts: &[FdtView], ov: &ObjView, delivered: &[usize], late_fdt: bool) -> bool {
     let first_obj_pos = match delivered.iter().position(|k| em.stream[*k].toi() == ov.toi) {
         Some(p) => p,
         None => return false,
+    };
+    let first_obj_pos = if late_fdt {
+        delivered.iter().position(|k| em.stream[*k].toi() == ov.toi && em.stream[*k].dec.lct.b).unwrap_or(delivered.len())
+    } else {
+        first_obj_pos
     };
     // some FDT instance listing the object decodable from packets delivered before
     let oti = &em.spec.oti;
